@@ -21,8 +21,9 @@ Outputs == {"json", "lineprotocol"}
 \* that runs is the file's bytes, nothing is normalised on the way
 \* nilField: the script leaves a field whose value is nil: it is part of the point and is printed (JSON null)
 \* setTimeEpoch / setTimeBefore: the script sets the time to 1970-01-01T00:00:00Z exactly / to a moment before it: a time like any other
+\* timeKey: the script leaves an integer field named `time`: a field like any other, the point's time is untouched
 \* noFields: the script leaves a point without any field (everything dropped or moved to tags): still a point, printed as JSON
-Kinds == {"noop", "addField", "crlfField", "nilField", "noFields", "toTag", "setMeas", "clearMeas", "setTime", "setTimeEpoch", "setTimeBefore", "dropMsg", "useSibling", "loadErr", "runErr", "linkErr", "selfUse"}
+Kinds == {"noop", "addField", "crlfField", "nilField", "noFields", "toTag", "setMeas", "clearMeas", "setTime", "setTimeEpoch", "setTimeBefore", "timeKey", "dropMsg", "useSibling", "loadErr", "runErr", "linkErr", "selfUse"}
 
 VARIABLES cfg, phase, pt, snap, out, err
 vars == <<cfg, phase, pt, snap, out, err>>
@@ -30,7 +31,7 @@ vars == <<cfg, phase, pt, snap, out, err>>
 Pt0 == [meas |-> "in", time |-> "in", added |-> FALSE, totag |-> FALSE, dropped |-> FALSE, fromlib |-> FALSE]
 None == [meas |-> "-", time |-> "-", added |-> FALSE, totag |-> FALSE, dropped |-> FALSE, fromlib |-> FALSE]
 
-Effect(k, p) == CASE k \in {"addField", "crlfField", "nilField"} -> [p EXCEPT !.added = TRUE]
+Effect(k, p) == CASE k \in {"addField", "crlfField", "nilField", "timeKey"} -> [p EXCEPT !.added = TRUE]
                   [] k = "toTag" -> [p EXCEPT !.totag = TRUE]
                   [] k = "setMeas" -> [p EXCEPT !.meas = "new"]
                   [] k = "clearMeas" -> [p EXCEPT !.meas = "empty"]     \* set_measurement(""): an empty name is still the script's result
